@@ -182,7 +182,7 @@ class SchemaGen:
         seen_named = set()
         for k in kinds:
             if k in PRIM_KINDS:
-                out.append(k)
+                out.append({"type": k} if ch.chance(15) else k)
             elif k == "array":
                 out.append({"type": "array", "items": self.type(depth + 1, ns, in_union=True)})
             elif k == "map":
@@ -323,7 +323,7 @@ BIG_F32 = struct.unpack("<f", b"\xff\xff\x7f\x7f")[0]
 
 class DataGen:
     def __init__(self, ch, hints=False, omit_defaults=True, tuples=True, max_len=4,
-                 big_collections=True, long_strings=(63, 64, 65, 200, 8192)):
+                 big_collections=True, long_strings=(63, 64, 65, 200, 8192), huge=False, deep=False):
         self.ch = ch
         self.hints = hints
         self.omit_defaults = omit_defaults
@@ -332,6 +332,10 @@ class DataGen:
         self.big_collections = big_collections
         self.long_strings = list(long_strings)
         self.f32_safe = False
+        self.huge = huge      # size profile: length varints of 3 and 4 bytes, collections of thousands
+        self.deep = deep      # recursion depth up to ~40 instead of ~6
+        self.huge_left = 2    # at most two huge leaves per generator (keeps a run in the 10 ms range)
+        self.budget = 4000    # nodes per generator: stops exponential growth of multiply-recursive types
         self.probes = {}
 
     def _p(self, name):
@@ -344,6 +348,11 @@ class DataGen:
         mode = ch.draw(4)
         if mode == 0:
             return ch.pick([0, 1, -1, 2, 63, -64])
+        if mode == 1 and hi > refavro.INT_MAX and ch.chance(25):
+            # magnitude thresholds: int32 edge inside a long, the binary64 integer edge, int64 edge
+            self._p("int_magnitude_threshold")
+            return ch.pick([(1 << 31) - 1, 1 << 31, -(1 << 31) - 1, 1 << 53, (1 << 53) + 1, -(1 << 53) - 1,
+                            (1 << 63) - 1, -(1 << 63), (1 << 62)])
         if mode == 1:
             # varint length boundaries: |n| around 2^(7k-1)
             kmax = 4 if hi == refavro.INT_MAX else 9
@@ -396,8 +405,13 @@ class DataGen:
             return ""
         if mode == 2:
             self._p("string_multibyte")
-            return ch.pick(["é", "中文", "\U0001F600", "a\u0000b", "߿ࠀ￿"])
+            return ch.pick(["é", "中文", "\U0001F600", "a\u0000b", "߿ࠀ￿", "e\u0301\u0323", "\U0010FFFF\U00010000", "\ufeffx"])
         if mode == 3:
+            if self.huge and self.huge_left > 0 and ch.chance(50):
+                self.huge_left -= 1
+                self._p("string_huge")
+                # 8192 / 1048576 bytes: the length prefix grows to 3 / 4 bytes; 70000 > 64 KiB
+                return ch.pick(["a", "z"]) * ch.pick([8191, 8192, 16384, 70000, 1048575, 1048576])
             self._p("string_long")
             n = ch.pick(self.long_strings)
             return ch.pick(["a", "é", "z"]) * n
@@ -411,6 +425,10 @@ class DataGen:
         if mode == 1:
             return b""
         if mode == 2:
+            if self.huge and self.huge_left > 0 and ch.chance(40):
+                self.huge_left -= 1
+                self._p("bytes_huge")
+                return bytes([ch.draw(256)]) * ch.pick([8192, 65536, 70000, 1048576])
             self._p("bytes_all_values")
             return bytes(range(256))
         if mode == 3:
@@ -424,6 +442,10 @@ class DataGen:
             self._p("collection_empty")
             return 0
         if mode == 1 and self.big_collections:
+            if self.huge and self.huge_left > 0 and ch.chance(30):
+                self.huge_left -= 1
+                self._p("collection_ge8192")
+                return ch.pick([8192, 8200])
             self._p("collection_ge64")
             return ch.pick([64, 65, 70])
         return 1 + ch.draw(self.max_len)
@@ -451,6 +473,15 @@ class DataGen:
         ch = self.ch
         n = refavro.deref(n)
         k = n.k
+        self.budget -= 1
+        if self.budget <= 0:
+            # out of budget: the smallest value of the type
+            if k == "union" and any(refavro.deref(b).k == "null" for b in n.branches):
+                return None
+            if k == "array":
+                return []
+            if k == "map":
+                return {}
         if self.f32_safe and k in ("double", "int", "long"):
             # below a union one of whose other branches could re-interpret this value as a
             # 'float': keep the normal form branch-independent (binary32-exact values only)
@@ -469,11 +500,7 @@ class DataGen:
         if k == "float":
             return self.f32()
         if k == "double":
-            v = self.f64()
-            if "float" in union_kinds and isinstance(v, float) and not refavro.f32_representable(v):
-                # keep the normal form branch-independent when float is a sibling branch
-                return 0.5
-            return v
+            return self.f64()
         if k == "bytes":
             return self.bytes_()
         if k == "string":
@@ -483,18 +510,24 @@ class DataGen:
         if k == "enum":
             return ch.pick(n.symbols)
         if k == "array":
-            ln = 0 if depth > 5 else self.length()
+            lim = 40 if self.deep else 5
+            ln = 0 if depth > lim else self.length()
             if depth > 2:
-                ln = min(ln, 2)
+                ln = min(ln, 2 if not self.deep else 1)
+            if ln > 64 and refavro.deref(n.items).k in ("record", "array", "map", "union"):
+                ln = 64 + ln % 7    # thousands of items only for leaf item types
             items = [self.datum(n.items, depth + 1) for _ in range(ln)]
             if self.tuples and not in_union and ch.chance(10):
                 self._p("array_as_tuple")
                 return tuple(items)
             return items
         if k == "map":
-            ln = 0 if depth > 5 else self.length()
+            lim = 40 if self.deep else 5
+            ln = 0 if depth > lim else self.length()
             if depth > 2:
-                ln = min(ln, 2)
+                ln = min(ln, 2 if not self.deep else 1)
+            if ln > 64 and refavro.deref(n.values).k in ("record", "array", "map", "union"):
+                ln = 64 + ln % 7
             out = {}
             for i in range(ln):
                 key = ch.pick(["k", "", "é", "key"]) + str(i)
@@ -502,13 +535,22 @@ class DataGen:
             return out
         if k == "union":
             kinds = [refavro.deref(b).k for b in n.branches]
-            if depth > 5 and "null" in kinds:
+            if depth > (40 if self.deep else 5) and "null" in kinds:
                 return None
-            i = ch.draw(len(n.branches))
+            if self.deep and depth > 3 and depth <= 40 and "null" in kinds and len(kinds) > 1:
+                # keep descending: prefer a non-null branch so that recursive types actually get deep
+                i = 1 + ch.draw(len(n.branches) - 1) if kinds[0] == "null" else ch.draw(len(n.branches))
+                if depth >= 30:
+                    self._p("recursion_depth_ge30")
+            else:
+                i = ch.draw(len(n.branches))
             self._p(f"union_branch_{min(i, 3)}")
             b = refavro.deref(n.branches[i])
             saved = self.f32_safe
-            if not saved and any(self._has_float(o) for j, o in enumerate(n.branches) if j != i):
+            if b.k == "double":
+                # a direct 'double' branch always wins for a Python float (documented): free doubles
+                self.f32_safe = False
+            elif not saved and any(self._has_float(o) for j, o in enumerate(n.branches) if j != i):
                 self.f32_safe = True
             try:
                 v = self.datum(b, depth + 1, in_union=True, union_kinds=kinds)
